@@ -78,6 +78,21 @@ Definition flush_pending (input w : bytes) (start ptr : nat) : outcome bytes :=
   then let* s := slice input start ptr in Done (w ++ s)
   else Done w.
 
+(* unicode.rs unescape: the block `let new_char = match bytes.get(ptr) { .. }` with its side effect
+   on ptr; returns (new_char, ptr) *)
+Definition escape_at (input : bytes) (ptr : nat) : N * nat :=
+  match nth_error input ptr with
+  | Some u =>
+      if N.eqb u 92 then (92%N, ptr)
+      else if N.eqb u 34 then (34%N, ptr)
+      else if N.eqb u 117 || N.eqb u 85 then
+        let seq_start := ptr + 1 in
+        let len := if N.eqb u 117 then 4 else 6 in
+        (encode_unicode (slice_get input seq_start (seq_start + len)), ptr + len)
+      else (UNKNOWN_CHAR, ptr)
+  | None => (UNKNOWN_CHAR, ptr)
+  end.
+
 (* unicode.rs unescape: the `while let Some(b) = bytes.get(ptr)` loop; state (w, start, ptr) *)
 Fixpoint unescape_loop (fuel : nat) (input w : bytes) (start ptr : nat) : outcome (bytes * nat * nat) :=
   match fuel with
@@ -90,18 +105,7 @@ Fixpoint unescape_loop (fuel : nat) (input w : bytes) (start ptr : nat) : outcom
           else
             let* w := flush_pending input w start ptr in
             let ptr := ptr + 1 in
-            let '(new_char, ptr) :=
-              match nth_error input ptr with
-              | Some u =>
-                  if N.eqb u 92 then (92%N, ptr)
-                  else if N.eqb u 34 then (34%N, ptr)
-                  else if N.eqb u 117 || N.eqb u 85 then
-                    let seq_start := ptr + 1 in
-                    let len := if N.eqb u 117 then 4 else 6 in
-                    (encode_unicode (slice_get input seq_start (seq_start + len)), ptr + len)
-                  else (UNKNOWN_CHAR, ptr)
-              | None => (UNKNOWN_CHAR, ptr)
-              end in
+            let '(new_char, ptr) := escape_at input ptr in
             let ptr := ptr + 1 in
             let* ptr := skip_to_boundary (S (length input)) input ptr in
             let w := w ++ encode_char new_char in
